@@ -255,15 +255,15 @@ PROPS["C11"] = {
 PROPS["C02"] = {
     "engine": "kani", "module": "c02", "feature": "c02", "jobs": 6, "timeout_q": 600,
     "functions": ["BitVec::select_hinted", "BitVec::select_zero_hinted", "SpanType::from_span", "Inventory for usize (set_*_span, is_*_span, get)",
-                  "SelectAdapt::log2_ones_per_sub32", "Select::select guard", "thorough: SelectAdapt::select_unchecked relative to the inventory invariant"],
+                  "SelectAdapt::log2_ones_per_sub32", "Select::select guard", "thorough: SelectAdapt::{select_unchecked,map}, SelectAdaptConst::select_unchecked, SelectZeroAdapt::select_zero_unchecked, SelectZeroAdaptConst::select_zero_unchecked relative to the inventory invariant"],
     "bounds": "hinted completion: 2 (quick) / 3 (thorough) fully symbolic words, symbolic valid hint and rank; kernels: every usize; "
-              "query-side step check (thorough): one symbolic word, 16-bit spans, L=3, one subinventory word",
+              "query-side step checks (thorough, one harness per concrete instantiation: SelectAdapt, SelectAdapt after map, SelectAdaptConst<_,_,3,0>, SelectZeroAdapt, SelectZeroAdaptConst<_,_,3,0>): one fully symbolic word, 16-bit spans, L=3, one subinventory word",
     "outside": "the CONSTRUCTORS of SelectAdapt, SelectAdaptConst, SelectZeroAdapt, SelectZeroAdaptConst, SelectSmall, SelectZeroSmall and Select9 "
                "(inventories whose length is decided by population counts of symbolic words: 51 GB for one word): nothing is claimed end to end, a "
-               "change inside a constructor is not detected; the 32/64-bit span tiers and all other selectors' query functions",
-    "assumptions": ["query-side step check: the inventory invariant is the one the documentation of SelectAdapt states (hand-written in the harness)"],
+               "change inside a constructor is not detected; the 32/64-bit span tiers; the query functions of SelectSmall, SelectZeroSmall, Select9",
+    "assumptions": ["query-side step check: the inventory invariant is the one the documentation of SelectAdapt states (hand-written in the harness; for the zero selectors the same invariant over the complemented word)"],
     "level_text": "Bounded model checking of the pieces of selection that are array-only code: the hinted scan, the span-type and inventory "
-                  "kernels over all values, the None guards, and (thorough) one query function relative to a stated inventory invariant.",
+                  "kernels over all values, the None guards, and (thorough) the query functions of the four adaptive selectors relative to a stated inventory invariant.",
     "level_note": "PARTIAL: no selection structure is decided end to end (constructors out of reach). Trusted: Kani/CBMC/CaDiCaL.",
 }
 
